@@ -631,3 +631,25 @@ def coverage_extra(tier, seed, results):
         k = "%s/%s" % (r["cfg"]["mode"], r["cfg"]["kind"])
         by[k] = by.get(k, 0) + 1
     return {"cases_per_mode_kind": by}
+
+# ---- call-order plane (executed by mc/core.py in fresh interpreters, see mc/props/_hist_common.py): the result of
+# a call must not depend on which other calls (other dtype / method / size / options) were made before it
+_HIST_LABELS = [('float32', 'jac'), ('float64', 'jac'), ('float64', 'hess'), ('float32', 'hess')]
+HISTORY = {"labels": ["/".join(str(x) for x in c) for c in _HIST_LABELS], "tol": [0.0001, 1e-12, 1e-12, 0.0001],
+           "depth": {"quick": 2, "thorough": 3},
+           "prelude": r'''import torch, xitorch
+from xitorch.grad import jac, hess
+CALLS = %r
+def do(i):
+    dtn, which = CALLS[i]
+    dt = getattr(torch, dtn)
+    W = torch.tensor([[0.3, -0.2, 0.5], [0.1, 0.4, -0.6]], dtype=dt)
+    y = torch.tensor([0.2, -0.7, 0.4], dtype=dt).requires_grad_()
+    p = torch.tensor([1.1, 0.6], dtype=dt).requires_grad_()
+    v = torch.tensor([0.7, -1.3, 0.2], dtype=dt)
+    if which == "jac":
+        J = jac(lambda y, p: torch.tanh(W @ y) * p, (y, p), idxs=0)
+        return torch.cat([J.mv(v).reshape(-1), J.fullmatrix().reshape(-1)]).detach().double().tolist()
+    H = hess(lambda y, p: (torch.tanh(W @ y) * p).sum() + (y ** 4).sum(), (y, p), idxs=0)
+    return torch.cat([H.mv(v).reshape(-1), H.fullmatrix().reshape(-1)]).detach().double().tolist()
+''' % (_HIST_LABELS,)}
